@@ -46,7 +46,7 @@ CHECKS["C03"] = {
     "engine": "symx+vloop",
     "technique": "symbolic execution of Worker.run() on a virtual-time loop with the stop signal injected at every event-loop step (solver-enumerated crash point) and a symbolic real graceful period",
     "text": "C03: after return and loop idle every message is in exactly one place, returned copies are unchanged, nothing is left in flight, and run() returns within graceful + 6 s.",
-    "note": "in-memory broker; crash point granularity = loop iteration; 1-2 messages, 4 actor kinds; Redis stop/death scenarios use the fake server; RabbitMQ and real process kill are outside the claim",
+    "note": "in-memory broker; crash point granularity = loop iteration; 1-2 messages, 4 actor kinds; Redis stop/death and the RabbitMQ stop scenario use fake servers (a message left unacknowledged on the fake channel counts as lost; redelivery on channel close is the server's); real process kill is outside the claim",
 }
 CHECKS["C05"] = {
     "engine": "symx+vloop+fakes",
@@ -73,10 +73,10 @@ CHECKS["C15"] = {
     "note": "equal priority; RabbitMQ server ordering is part of the stub; delayed-category order is outside the claim",
 }
 CHECKS["C07"] = {
-    "engine": "symx+strx+fakes",
-    "technique": "symbolic execution (z3) of every encode()/decode() pair with all leaves symbolic through a sentinel-JSON stub; cvc5 string/regex reasoning over the AST-interpreted Redis/RabbitMQ key builders and parsers with names drawn from the validators' own regexes (unbounded length); an IEEE-754 error-model lemma in linear arithmetic for the float seconds round trip; end-to-end Job.enqueue -> consume on the three brokers with symbolic settings",
+    "engine": "symx+strx+fpx+fakes",
+    "technique": "symbolic execution (z3) of every encode()/decode() pair with all leaves symbolic through a sentinel-JSON stub; the duration fields additionally on bit-precise z3 FloatingPoint/BitVec proxies (any float kernel other than the lemma's is decided by a time-capped query); cvc5 string/regex reasoning over the AST-interpreted Redis/RabbitMQ key builders and parsers with names drawn from the validators' own regexes (unbounded length); an IEEE-754 error-model lemma in linear arithmetic for the float seconds round trip; end-to-end Job.enqueue -> consume on the three brokers with symbolic settings",
     "text": "C07: decode(encode(x)) == x leaf by leaf at microsecond precision; key encodings parse back, are injective and the topic prefix filter is exact for all valid names; the consumer receives the key, payload and parameters that enqueue returned.",
-    "note": "argument VALUES are 8 concrete representatives (JSON text is a stub), so 'all argument values' is not claimed; float round trip rests on lemma L-FP (error model, not bit-precise); isoformat round trip trusted; Redis/AMQP servers are fakes; cron, tz-aware datetimes, Config overrides outside the claim",
+    "note": "argument VALUES are 9 concrete representatives (JSON text is a stub), so 'all argument values' is not claimed; float round trip of the unchanged kernel rests on lemma L-FP (error model; the bit-precise proof does not finish), other float kernels are decided bit-precisely or reported inconclusive; durations up to 100 julian years; isoformat round trip trusted; Redis/AMQP servers are fakes; cron, tz-aware datetimes, Config overrides outside the claim",
 }
 CHECKS["C08"] = {
     "engine": "symx",
